@@ -59,6 +59,9 @@ def make_new(r, df, used):
                     nd[v] = nd[v].astype(object)
                     nd.loc[k, v] = "NEW_" + v
                 rows.setdefault(k, []).append(v)
+    # row labels must not matter: same (possibly permuted / non-unique) index on both frames
+    nd = designs.scramble_index(r, nd)
+    ref.index = nd.index
     return nd, ref, rows
 
 
